@@ -32,3 +32,32 @@ Qed.
 
 Example no_stream_number_examples : no_stream_number [] /\ no_stream_number [VNull; VNumber 4607182418800017408] /\ no_stream_number [VString (str "1")].
 Proof. repeat split; intros x rest H; discriminate H. Qed.
+
+(* an onStatus message can do exactly three things: nothing to the session (unknown code reported, malformed or out-of-state status
+   refused), PlayRequested -> Playing, PublishRequested -> Publishing.  It never touches the active stream, the transactions, the
+   application name or the serializer. *)
+Lemma status_effect c args c' r :
+  ch_status c args = (c', r) ->
+  c' = c \/
+  (cl_state c = PlayRequested /\ c' = cupd_state c Playing /\ r = COk [CEvent CPlaybackAccepted]) \/
+  (cl_state c = PublishRequested /\ c' = cupd_state c Publishing /\ r = COk [CEvent CPublishAccepted]).
+Proof.
+  unfold ch_status. intros H.
+  destruct args as [|[x| | |ps| | |] rest]; try (injection H as <- _; left; reflexivity).
+  destruct (prop_get (str "code") ps) as [[x| |code| | | |]|]; try (injection H as <- _; left; reflexivity).
+  destruct (bytes_eqb code (str "NetStream.Play.Start")).
+  - destruct (cl_state c) eqn:Es; injection H as <- <-; try (left; reflexivity). right. left. repeat split.
+  - destruct (bytes_eqb code (str "NetStream.Publish.Start")).
+    + destruct (cl_state c) eqn:Es; injection H as <- <-; try (left; reflexivity). right. right. repeat split.
+    + injection H as <- _. left. reflexivity.
+Qed.
+
+Lemma status_malformed c args :
+  (forall ps rest code, args = VObject ps :: rest -> prop_get (str "code") ps <> Some (VString code)) ->
+  ch_status c args = (c, CErr CInvalidOnStatus).
+Proof.
+  intros H. unfold ch_status.
+  destruct args as [|[x| | |ps| | |] rest]; try reflexivity.
+  destruct (prop_get (str "code") ps) as [[x| |code| | | |]|] eqn:E; try reflexivity.
+  exfalso. exact (H ps rest code eq_refl E).
+Qed.
